@@ -6,6 +6,7 @@ from vx.extract import Unit
 from . import common
 from .mask_parser import SPEC as TOKS_SPEC
 from .comments import PRELUDE, SHIFT_INV, SP_MEMBERS
+from . import jsdoc as jsdoc_unit
 
 NAME = 'comments_doc'
 C = 'harper-comments/src/comment_parsers/'
@@ -18,18 +19,6 @@ impl TokenKind {
     #[verifier::external_body] pub fn is_space(&self) -> bool { unimplemented!() }
 }
 pub open spec fn same_spans(a: Seq<Token>, b: Seq<Token>) -> bool { a.len() == b.len() && forall|j: int| 0 <= j < a.len() ==> (#[trigger] a[j]).span == b[j].span }
-// jsdoc.rs: mark_inline_tags only rewrites kinds (ASSUMED here: closures + slice::IterMut over a sub-slice; its scanner
-// parse_inline_tag is proved in unit jsdoc)
-#[verifier::external_body]
-pub fn mark_inline_tags(tokens: &mut Vec<Token>)
-    ensures same_spans(final(tokens)@, old(tokens)@),
-{ unimplemented!() }
-// jsdoc.rs: parse_line (tuple_windows().position() + `for token in &mut new_tokens[tag_start..]`): contract ASSUMED
-#[verifier::external_body]
-fn parse_line(source: &[char], parser: Lrc<dyn Parser>) -> (r: Vec<Token>)
-    ensures toks_ok(r@, source@.len() as int),
-{ unimplemented!() }
-
 pub proof fn lemma_same_spans_ok(a: Seq<Token>, b: Seq<Token>, n: int)
     requires same_spans(a, b), toks_ok(b, n),
     ensures toks_ok(a, n),
@@ -150,6 +139,10 @@ def build(repo):
         result='r', external_body=True, props=['C01', 'C02', 'C04'], ensures=['r.start <= r.end', 'r.end <= source@.len()'],
         assumed='r.start <= r.end <= |source|', note='see unit comments'))
     U.raw(STUBS, name='assumed:stubs', props=['C02'])
+    # jsdoc.rs: callee contracts only (modular); both bodies are verified against these same contract texts in unit `jsdoc`
+    callee = lambda d, props: dict(d, external_body=True, proved_in='jsdoc', props=props, assumed='callee contract', note='body verified in unit jsdoc')
+    U.fn(C + 'jsdoc.rs', 'mark_inline_tags', callee(jsdoc_unit.MARK_INLINE_TAGS_CONTRACT, ['C01', 'C02']))
+    U.fn(C + 'jsdoc.rs', 'parse_line', callee(jsdoc_unit.PARSE_LINE_CONTRACT, ['C01', 'C02', 'C04']))
     U.item(C + 'jsdoc.rs', 'struct JsDoc', derive=())
     U.impl(C + 'jsdoc.rs', 'impl Parser for JsDoc', {'parse': JSDOC_PARSE}, extra_members=SP_MEMBERS)
     U.item(C + 'javadoc.rs', 'struct JavaDoc', derive=())
